@@ -255,7 +255,7 @@ def grp_cases(rng, tier, mid=4):
 
 
 # ------------------------------------------------------------------------------------------ behavioural
-REF_OPS = [[0, 5, -3], [6, 2], [6, -1], [6, 5], [7, 4], [7, 3], [7, -1], [8, 200], [8, 7], [9, 7], [10, 0], [10, 1], [10, 3], [10, 2, 1, 5], [10, 1, 2, 5], [10, 3, 1, 8], [10, 0, 1, 4], [10, 9, 2, 3], [10, 2, 0, 6], [10, 1, 1, 0], [12, 255, 70000, -5], [13], [14],
+REF_OPS = [[0, 5, -3], [6, 2], [6, -1], [6, 5], [7, 4], [7, 3], [7, -1], [8, 200], [8, 7], [9, 7], [10, 0], [10, 1], [10, 3], [10, 2, 1, 5], [10, 1, 2, 5], [10, 3, 1, 8], [10, 0, 1, 4], [10, 9, 2, 3], [10, 2, 0, 6], [10, 1, 1, 0], [10, 0, 0, 5, 1], [10, 1, 1, 9, 1], [10, 0, 2, 40, 1], [10, 0, 0, 17, 2], [10, 1, 2, 33, 2], [10, 0, 1, 4, 1], [10, 1, 0, 63, 1], [12, 255, 70000, -5], [13], [14],
            [16, 5], [16, -2], [18, 4], [18, -9], [19, 0], [19, 1], [19, 13], [19, -7], [19, 65535], [20, 3], [20, -1], [21, 9], [35, 0], [35, 1], [35, 2, 0], [35, 2, 5], [36, 1, 0], [36, 2, 255], [36, 0, -1], [36, 1, -1], [37, -1], [37, 255, 7, -3], [37, 0, 0, 0], [38, 3], [38, 4], [38, 0], [39, 0], [39, 1], [39, 2], [39, -7], [31, 97, 0], [31, 955, 1], [31, 8364, 0], [31, 128512, 0], [31, 255, 1], [31, 1114111, 1], [32, -5, 77, -3], [32, 2 ** 62, -1, 127], [33, 1078530011, 4614253070214989087], [33, 2143289344, 0], [34, 300, 8364], [34, 65535, 97], [26, 0], [26, 1], [26, 5], [26, 13], [26, 65536], [26, -7], [27, 0], [27, -1], [27, -22], [27, 70000], [27, 2147483647], [27, -2147483648], [28, 4], [28, -21], [28, 70001],
            [22, 4], [22, 7], [23, 21], [24], [25, 2], [25, 0]]
 MUT_OPS = [[1, 5], [1, 0], [1, 24], [2, 3], [2, 0], [3, 4], [3, 0], [4, 6], [4, 0], [5, 0], [5, 1], [5, 2], [5, 3], [5, 4], [5, 5], [5, 6], [5, 7], [5, 8], [11, 0], [11, 4], [15], [17, 2], [17, 3], [40, 0], [40, 2], [40, 5], [40, 6], [40, 7], [41, 0], [41, 2], [41, 3], [41, 5], [41, 8], [42, 1], [42, 2], [42, 3], [42, 7], [29, 0, 5], [29, 1, 5], [29, 2, 8], [29, 1, 0], [30, 0], [30, 1], [30, 2], [29, 2, 3], [30, 1]]
@@ -401,13 +401,14 @@ def life_model_line(l):
         return l
     hdr, body = l.split("|", 1)
     ops = [o.split() for o in body.split(";") if o.strip()]
-    return hdr + "| " + " ; ".join(" ".join(["5"] + o[1:] if o[0] == "21" else o) for o in ops)
+    # (op 12 with a third field 1 casts back through `From` instead of `upcast()`: the same model step)
+    return hdr + "| " + " ; ".join(" ".join(["5"] + o[1:] if o[0] == "21" else o[:2] if o[0] == "12" else o) for o in ops)
 
 
 def life_cases(rng, tier, with_borrowed=True):
     cases = ["106 | 0 1 ; 1 0 ; 2 0 ; 2 0 ; 7 1 ; 4 0 ; 1 3 ; 7 3", "106 | 0 1 ; 5 0", "106 | 0 1 ; 2 0 ; 21 0 ; 1 1", "106 | 0 3 ; 21 0", "106 | 8 5 ; 6 0 ; 6 1 ; 7 0", "106 | 10 7 1 ; 11 0 ; 6 1 ; 12 1 ; 11 3",
              "106 | 10 7 0 ; 11 0", "106 | 13 4 ; 14 5", "106 | 0 2 ; 2 0 ; 5 0 ; 1 1", "106 | 15 -77 ; 1 0 ; 7 0", "106 | 15 -77 ; 15 -77 ; 7 1",
-             "106 | 10 7 1 ; 16 0", "106 | 10 7 0 ; 17 0 ; 1 1", "106 | 0 4 ; 18 0 ; 18 0 ; 7 1 ; 7 0 ; 7 2", "106 | 0 4 ; 20 0 ; 11 1 ; 6 2 ; 7 0 ; 16 3", "106 | 0 4 ; 20 0 ; 20 0 ; 17 1 ; 7 0", "106 | 10 7 1 ; 19 0 ; 11 0 ; 19 2 ; 7 1", "106 | 10 7 1 ; 11 0 ; 6 1 ; 16 1 ; 17 2", "106 | 10 7 1 ; 11 0 ; 12 1 ; 16 2"]
+             "106 | 10 7 1 ; 16 0", "106 | 10 7 0 ; 17 0 ; 1 1", "106 | 0 4 ; 18 0 ; 18 0 ; 7 1 ; 7 0 ; 7 2", "106 | 0 4 ; 20 0 ; 11 1 ; 6 2 ; 7 0 ; 16 3", "106 | 0 4 ; 20 0 ; 20 0 ; 17 1 ; 7 0", "106 | 10 7 1 ; 19 0 ; 11 0 ; 19 2 ; 7 1", "106 | 10 7 1 ; 11 0 ; 6 1 ; 16 1 ; 17 2", "106 | 10 7 1 ; 11 0 ; 12 1 ; 16 2", "106 | 10 7 1 ; 11 0 ; 12 1 1 ; 1 2 ; 16 2", "106 | 10 9 1 ; 11 0 ; 6 1 ; 12 1 1 ; 12 2 1 ; 7 3"]
     if with_borrowed:
         cases.append("106 | 9 3 ; 3 0 ; 3 0 ; 3 0")
     # the same fixed histories with a ZERO-SIZED user context whose Clone/Drop keep the count ('106 1 | ..')
@@ -454,7 +455,7 @@ def life_cases(rng, tier, with_borrowed=True):
                 c = rng.choice([1, 11, 11, 7, 16, 17, 19])
             else:
                 c = rng.choice([1, 6, 6, 12, 7, 16, 17, 19])
-            ops.append([c, h])
+            ops.append([c, h] + ([1] if c == 12 and rng.chance(1, 2) else []))
             if c in (2, 18, 19): kinds.append("H")
             elif c == 20: kinds.append("G1")
             elif c in (4, 17): kinds[h] = "D"; kinds.append("H")
